@@ -27,8 +27,12 @@ P_SOLVE = [.01, .1, .29, .5, .9]
 
 
 def param_set(rng, idx, tier):
-    sizes = SIZES_Q if tier == "quick" else SIZES_T
-    length, width = sizes[idx % len(sizes)]
+    if tier == "quick":
+        length, width = SIZES_Q[idx % len(SIZES_Q)]
+    else:
+        # the big and tall boards (minutes per solve) appear twice each, everything else cycles through the small shapes
+        big = SIZES_T[len(SIZES_Q):]
+        length, width = big[idx // 2] if idx < 2 * len(big) else SIZES_Q[idx % len(SIZES_Q)]
     seed = rng.choice([0, 1, 47, 2 ** 31, rng.randrange(2 ** 31)])
     mr = rng.choice([1, 6, 30])
     solve = idx % 3 != 2
@@ -265,7 +269,7 @@ def decide(idx, seed, tier, cls, given=None):
 
 def plan(tier, seed):
     q = tier == "quick"
-    b = harness.split("PARAM", 96 if q else 1500, 4 if q else 10)
+    b = harness.split("PARAM", 96 if q else 1500, 4 if q else 6)
     b += harness.split("MANUAL", 40 if q else 600, 10 if q else 50)
     b += harness.split("SUBPROC", 8 if q else 60, 4 if q else 10)
     return b
